@@ -21,7 +21,7 @@ Fixpoint B (e : fxR) : Prop :=
 
 Ltac fxind2 e :=
   induction e as [p|p| |c|c|g|a b c|s f IHf|s f IHf|v f IHf|f IHf g IHg|f IHf c|f IHf t|f IHf a u c
-                 |f IHf g IHg|f IHf|qb IHq|k f IHf g IHg].
+                 |f IHf g IHg|f IHf|qb IHq|k f IHf g IHg|pb P].
 
 Lemma pconj_invol p : pconj (pconj p) = p.
 Proof. destruct p; reflexivity. Qed.
@@ -112,7 +112,7 @@ Proof. destruct g; reflexivity. Qed.
 
 Ltac fxind3 e :=
   induction e as [p|p| |c|c|g|a b c|s f IHf|s f IHf|mv f IHf|f IHf g IHg|f IHf c|f IHf t|f IHf a u c
-                 |f IHf g IHg|f IHf|qb IHq|k f IHf g IHg].
+                 |f IHf g IHg|f IHf|qb IHq|k f IHf g IHg|pb P].
 
 Lemma zi e : forall n w e' x v, wf n e -> cj w e = Ok e' -> is_linear e' = true -> val e w x = Ok v -> zinf v.
 Proof.
@@ -392,6 +392,8 @@ Proof.
     apply veq_eadd.
     + exact (IHf k _ _ v1 u1 Hwf1 B1 (Lf w Lw) (Lf x Lx) E1 D1).
     + exact (IHg (n - k)%nat _ _ v2 u2 Hwf2 B2 (Ls w Lw) (Ls x Lx) E2 D2).
+  - (* FPair *) unfold ccval, Rules.cval in Hcc. cbn [cconj value] in Hcc, Hv. rewrite negb_involutive in Hcc.
+    rewrite Hv in Hcc. inv_ok. apply veq_refl.
 Qed.
 
 End BC.
